@@ -133,10 +133,11 @@ Definition auto_apply (kind : nat) (l : list (option Z)) : option Z :=
   end.
 
 (* hash_fn: hm = 0 is the default (pg.hash of the DNA: covers the metadata, so a DNA carrying a proposal id
-   hashes to a value unique to that proposal — canonicalised as m + proposal_id); hm > 0 is index mod hm *)
+   hashes to a value unique to that proposal — canonicalised as m + proposal_id; all offset by 10^7, away from the
+   small keys of a custom hash_fn); hm > 0 is index mod hm *)
 Definition hash_of (m : Z) (hm : nat) (d : dna) : Z :=
   match hm with
-  | O => match dpid d with Some p => (m + p)%Z | None => dval d end
+  | O => (10000000 + match dpid d with Some p => (m + p)%Z | None => dval d end)%Z
   | _ => (dval d mod Z.of_nat hm)%Z
   end.
 
